@@ -179,13 +179,13 @@ def collect_helpers(modules, baseline, nested_baseline=None):
         for st in m.tree.body:
             if isinstance(st, ast.FunctionDef):
                 q = '%s.%s' % (m.name, st.name)
-                if q not in baseline and is_private(st.name):
+                if q not in baseline and not (st.name.startswith('__') and st.name.endswith('__')):
                     out[q] = Helper(q, m, None, st)
             elif isinstance(st, ast.ClassDef):
                 for s2 in st.body:
                     if isinstance(s2, ast.FunctionDef):
                         q = '%s.%s.%s' % (m.name, st.name, s2.name)
-                        if q not in baseline and is_private(s2.name):
+                        if q not in baseline and not (s2.name.startswith('__') and s2.name.endswith('__')):
                             out[q] = Helper(q, m, st, s2)
     return out
 
@@ -854,9 +854,11 @@ def inline_fresh_helpers(modules, baseline=None, rounds=4):
                     fn.body = b.body
                 log.append((h.qual, [], 'kept: %s' % ex))
                 continue
-            # remove the definition
+            # remove the definition (a helper with a public name stays: it is new API as well, and is analysed like any other function)
             if h.parent is not None:
                 _remove_nested(h.parent, h.node)
+            elif not is_private(h.name):
+                pass
             elif h.is_method:
                 h.cls.body.remove(h.node)
             else:
@@ -1042,7 +1044,7 @@ def split_conditional_expressions(modules):
 # ----------------------------------------------------------------------------------------------- diagnostics
 
 LOG_METHODS = {'debug', 'info', 'warning', 'warn', 'error', 'exception', 'critical', 'log'}
-PURE_FUNCS = {'str', 'repr', 'len', 'int', 'float', 'bool', 'type', 'id', 'format', 'isinstance', 'getattr', 'hasattr', 'tuple', 'list', 'sorted'}
+PURE_FUNCS = {'str', 'repr', 'len', 'int', 'float', 'bool', 'type', 'id', 'format', 'isinstance', 'getattr', 'hasattr', 'tuple', 'list', 'sorted', 'max', 'min', 'sum', 'abs', 'dict', 'set', 'frozenset', 'round'}
 
 
 def _pure_expr(e):
@@ -1060,7 +1062,7 @@ def _pure_expr(e):
     return True
 
 
-def _is_log_call(c):
+def _is_log_call(c, loggers=()):
     f = c.func
     if not isinstance(f, ast.Attribute) or f.attr not in LOG_METHODS:
         return False
@@ -1072,20 +1074,100 @@ def _is_log_call(c):
         return False
     if d == 'logging' or d.startswith('logging.getLogger(') or d == 'warnings':
         return True
+    if d in loggers or d.split('.')[-1] in loggers:
+        return True
     last = d.split('.')[-1].lower()
-    return last in ('log', 'logger', '_log', '_logger', 'logging')
+    return last in ('log', 'logger', '_log', '_logger', 'logging') or last.endswith('_log') or last.endswith('_logger')
+
+
+def _logger_names(modules):
+    """names (module level, class level, or attributes of self) bound to logging.getLogger(..)"""
+    out = set()
+    for m in modules.values():
+        for n in ast.walk(m.tree):
+            if isinstance(n, ast.Assign) and isinstance(n.value, ast.Call):
+                try:
+                    f = ast.unparse(n.value.func)
+                except Exception:
+                    continue
+                if f in ('logging.getLogger', 'getLogger'):
+                    for t in n.targets:
+                        if isinstance(t, ast.Name):
+                            out.add(t.id)
+                        elif isinstance(t, ast.Attribute):
+                            out.add(t.attr)
+    return out
+
+
+def _diag_only_body(stmts, loggers, diag_funcs, locals_):
+    """every statement only computes effect-free locals, returns nothing, or logs"""
+    for st in stmts:
+        if isinstance(st, ast.Pass) or (isinstance(st, ast.Expr) and isinstance(st.value, ast.Constant)):
+            continue
+        if isinstance(st, ast.Return) and (st.value is None or (isinstance(st.value, ast.Constant) and st.value.value is None)):
+            continue
+        if isinstance(st, ast.If) and _pure_expr(st.test):
+            if _diag_only_body(st.body, loggers, diag_funcs, locals_) and _diag_only_body(st.orelse, loggers, diag_funcs, locals_):
+                continue
+            return False
+        if isinstance(st, ast.Assign) and all(isinstance(t, ast.Name) for t in st.targets) and _pure_expr(st.value):
+            locals_.update(t.id for t in st.targets)
+            continue
+        if isinstance(st, ast.AugAssign) and isinstance(st.target, ast.Name) and st.target.id in locals_ and _pure_expr(st.value):
+            continue
+        if isinstance(st, ast.Expr) and isinstance(st.value, ast.Call):
+            c = st.value
+            args_ok = all(_pure_expr(a.value if isinstance(a, ast.Starred) else a) for a in c.args) and all(_pure_expr(k.value) for k in c.keywords)
+            if args_ok and (_is_log_call(c, loggers) or (isinstance(c.func, ast.Name) and c.func.id in diag_funcs)):
+                continue
+        if isinstance(st, ast.For) and isinstance(st.target, ast.Name) and _pure_expr(st.iter) and not st.orelse:
+            locals_.add(st.target.id)
+            if _diag_only_body(st.body, loggers, diag_funcs, locals_):
+                continue
+        return False
+    return True
+
+
+def _diag_functions(modules, loggers, baseline):
+    """fresh module-level functions that do nothing but log (their parameters are only read): a call to one, as a statement with effect-free arguments,
+    says nothing about any property"""
+    out = set()
+    changed = True
+    while changed:
+        changed = False
+        for m in modules.values():
+            for st in m.tree.body:
+                if not isinstance(st, ast.FunctionDef) or st.name in out or st.decorator_list:
+                    continue
+                if '%s.%s' % (m.name, st.name) in baseline:
+                    continue
+                if any(isinstance(n, (ast.Global, ast.Nonlocal, ast.Yield, ast.YieldFrom)) for n in ast.walk(st)):
+                    continue
+                params = {a.arg for a in st.args.args + st.args.kwonlyargs} | ({st.args.vararg.arg} if st.args.vararg else set()) | ({st.args.kwarg.arg} if st.args.kwarg else set())
+                has_log = any(isinstance(n, ast.Call) and (_is_log_call(n, loggers) or (isinstance(n.func, ast.Name) and n.func.id in out)) for n in ast.walk(st))
+                if has_log and _diag_only_body(st.body, loggers, out, set(params)):
+                    # locals only: no store through a parameter
+                    out.add(st.name)
+                    changed = True
+    return out
 
 
 class _StripDiagnostics(ast.NodeTransformer):
-    def __init__(self):
+    def __init__(self, loggers=(), diag_funcs=()):
         self.n = 0
+        self.loggers = loggers
+        self.diag_funcs = diag_funcs
 
     def _strip(self, stmts):
         out = []
         for st in stmts:
-            if isinstance(st, ast.Expr) and isinstance(st.value, ast.Call) and _is_log_call(st.value) \
-                    and all(_pure_expr(a) for a in st.value.args) and all(_pure_expr(k.value) for k in st.value.keywords):
-                self.n += 1
+            if isinstance(st, ast.Expr) and isinstance(st.value, ast.Call):
+                c = st.value
+                args_ok = all(_pure_expr(a.value if isinstance(a, ast.Starred) else a) for a in c.args) and all(_pure_expr(k.value) for k in c.keywords)
+                if args_ok and (_is_log_call(c, self.loggers) or (isinstance(c.func, ast.Name) and c.func.id in self.diag_funcs)):
+                    self.n += 1
+                    continue
+            if isinstance(st, ast.If) and _pure_expr(st.test) and self.n and all(isinstance(x, ast.Pass) for x in st.body) and not st.orelse and getattr(st, '_emptied', False):
                 continue
             out.append(st)
         return out
@@ -1098,18 +1180,621 @@ class _StripDiagnostics(ast.NodeTransformer):
                 new = self._strip(v)
                 if not new and f == 'body':
                     new = [ast.copy_location(ast.Pass(), v[0])]
+                    if len(v) != 0 and not all(isinstance(x, ast.Pass) for x in v):
+                        node._emptied = True        # the block held diagnostics only
                 setattr(node, f, new)
+        if isinstance(node, ast.If) and getattr(node, '_emptied', False) and node.orelse and all(isinstance(x, ast.Pass) for x in node.orelse):
+            node.orelse = []
         return node
 
 
-def strip_diagnostics(modules):
-    """logging statements with effect-free arguments say nothing about any property: they are dropped before analysis"""
+def strip_diagnostics(modules, baseline=None):
+    """logging statements with effect-free arguments say nothing about any property: they are dropped before analysis, together with calls of fresh
+    helper functions that do nothing but log and the `if <flag>:` blocks that held nothing else"""
     n = 0
+    baseline = baseline_names() if baseline is None else baseline
+    loggers = _logger_names(modules)
+    diag = _diag_functions(modules, loggers, baseline)
     for m in modules.values():
-        t = _StripDiagnostics()
+        t = _StripDiagnostics(loggers, diag)
         m.tree = t.visit(m.tree)
         n += t.n
+        if diag:
+            m.tree.body = [st for st in m.tree.body if not (isinstance(st, ast.FunctionDef) and st.name in diag)]
     return n
+
+
+def strip_annotations(modules):
+    """type annotations carry no behaviour: `x: T = v` becomes `x = v`, a bare `x: T` disappears, parameter and return annotations are dropped"""
+    n = 0
+
+    class T(ast.NodeTransformer):
+        def visit_AnnAssign(self, st):
+            nonlocal n
+            n += 1
+            if st.value is None:
+                return ast.copy_location(ast.Pass(), st)
+            return ast.copy_location(ast.Assign(targets=[st.target], value=st.value), st)
+
+        def _fn(self, fn):
+            nonlocal n
+            self.generic_visit(fn)
+            for a in fn.args.posonlyargs + fn.args.args + fn.args.kwonlyargs + ([fn.args.vararg] if fn.args.vararg else []) + ([fn.args.kwarg] if fn.args.kwarg else []):
+                if a.annotation is not None:
+                    a.annotation = None
+                    n += 1
+            if fn.returns is not None:
+                fn.returns = None
+                n += 1
+            return fn
+        visit_FunctionDef = _fn
+        visit_AsyncFunctionDef = _fn
+    for m in modules.values():
+        m.tree = ast.fix_missing_locations(T().visit(m.tree))
+    return n
+
+
+# ----------------------------------------------------------------------------------------------- one spelling for string formatting
+
+def canonical_string_formatting(modules):
+    """f-strings and `'..%s..' % (..)` are rewritten to the '..{}..'.format(..) spelling (the one the pinned tree uses), so that rules about the text a
+    statement builds see one form.  Only rewrites whose meaning is identical are made: plain fields, !r/!s/!a conversions, constant format specs; %s %d %r."""
+    import re as _re
+    n = 0
+
+    class T(ast.NodeTransformer):
+        def visit_JoinedStr(self, e):
+            nonlocal n
+            self.generic_visit(e)
+            tmpl, args = '', []
+            for v in e.values:
+                if isinstance(v, ast.Constant) and isinstance(v.value, str):
+                    tmpl += v.value.replace('{', '{{').replace('}', '}}')
+                elif isinstance(v, ast.FormattedValue):
+                    fld = ''
+                    if v.conversion in (114, 115, 97):
+                        fld += '!' + chr(v.conversion)
+                    elif v.conversion != -1:
+                        return e
+                    if v.format_spec is not None:
+                        if not (isinstance(v.format_spec, ast.JoinedStr) and all(isinstance(x, ast.Constant) for x in v.format_spec.values)):
+                            return e
+                        fld += ':' + ''.join(x.value for x in v.format_spec.values)
+                    tmpl += '{' + fld + '}'
+                    args.append(v.value)
+                else:
+                    return e
+            if not args:
+                return ast.copy_location(ast.Constant(value=tmpl.replace('{{', '{').replace('}}', '}')), e)
+            n += 1
+            return ast.copy_location(ast.Call(func=ast.Attribute(value=ast.Constant(value=tmpl), attr='format', ctx=ast.Load()), args=args, keywords=[]), e)
+
+        def visit_BinOp(self, e):
+            nonlocal n
+            self.generic_visit(e)
+            if isinstance(e.op, ast.Add) and isinstance(e.left, ast.Constant) and isinstance(e.right, ast.Constant) and isinstance(e.left.value, str) and isinstance(e.right.value, str):
+                return ast.copy_location(ast.Constant(value=e.left.value + e.right.value), e)
+            if not (isinstance(e.op, ast.Mod) and isinstance(e.left, ast.Constant) and isinstance(e.left.value, str)):
+                return e
+            t = e.left.value
+            fields = _re.findall(r'%(.)', t)
+            ph = [f for f in fields if f != '%']
+            if not ph or any(f not in 'sdr' for f in ph) or '{' in t or '}' in t:
+                return e
+            if isinstance(e.right, ast.Tuple):
+                args = list(e.right.elts)
+            elif len(ph) == 1 and not isinstance(e.right, (ast.Dict, ast.Starred)):
+                args = [e.right]
+            else:
+                return e
+            if len(args) != len(ph) or any(isinstance(a, ast.Starred) for a in args):
+                return e
+            tmpl = _re.sub(r'%(.)', lambda m_: {'s': '{}', 'd': '{}', 'r': '{!r}', '%': '%'}[m_.group(1)], t)
+            n += 1
+            return ast.copy_location(ast.Call(func=ast.Attribute(value=ast.Constant(value=tmpl), attr='format', ctx=ast.Load()), args=args, keywords=[]), e)
+    import string as _string
+
+    class F(ast.NodeTransformer):
+        """'a{}b{}'.format(x, 'lit') -> 'a{}blit'.format(x): constant arguments of plain auto-numbered fields are written into the template"""
+        def visit_Call(self, c):
+            nonlocal n
+            self.generic_visit(c)
+            f = c.func
+            if not (isinstance(f, ast.Attribute) and f.attr == 'format' and isinstance(f.value, ast.Constant) and isinstance(f.value.value, str)) or c.keywords:
+                return c
+            if any(isinstance(a, ast.Starred) for a in c.args) or not any(isinstance(a, ast.Constant) and isinstance(a.value, (str, int)) and not isinstance(a.value, bool) for a in c.args):
+                return c
+            try:
+                parts = list(_string.Formatter().parse(f.value.value))
+            except ValueError:
+                return c
+            fields = [p_ for p_ in parts if p_[1] is not None]
+            if len(fields) != len(c.args) or any(p_[1] != '' for p_ in fields):
+                return c
+            tmpl, args, i = '', [], 0
+            for lit, fld, spec, conv in parts:
+                tmpl += lit.replace('{', '{{').replace('}', '}}')
+                if fld is None:
+                    continue
+                a = c.args[i]
+                i += 1
+                if isinstance(a, ast.Constant) and isinstance(a.value, (str, int)) and not isinstance(a.value, bool) and not spec and not conv:
+                    tmpl += str(a.value).replace('{', '{{').replace('}', '}}')
+                else:
+                    tmpl += '{' + ('!' + conv if conv else '') + (':' + spec if spec else '') + '}'
+                    args.append(a)
+            n += 1
+            if not args:
+                return ast.copy_location(ast.Constant(value=tmpl.replace('{{', '{').replace('}}', '}')), c)
+            return ast.copy_location(ast.Call(func=ast.Attribute(value=ast.Constant(value=tmpl), attr='format', ctx=ast.Load()), args=args, keywords=[]), c)
+    for m in modules.values():
+        m.tree = ast.fix_missing_locations(F().visit(T().visit(m.tree)))
+    return n
+
+
+# ----------------------------------------------------------------------------------------------- fresh named constants
+
+def baseline_constants():
+    p = os.path.join(HERE, 'baseline_names.json')
+    with open(p) as fh:
+        return set(json.load(fh).get('constants', []))
+
+
+RE_FUNCS = {'search', 'match', 'fullmatch', 'findall', 'finditer', 'split', 'sub', 'subn'}
+
+
+def _hoistable(v):
+    """an expression whose value is immutable and does not depend on when it is evaluated"""
+    if isinstance(v, ast.Constant):
+        return True
+    if isinstance(v, ast.Tuple):
+        return all(_hoistable(x) for x in v.elts)
+    if isinstance(v, ast.UnaryOp) and isinstance(v.op, (ast.USub, ast.UAdd, ast.Not)):
+        return _hoistable(v.operand)
+    if isinstance(v, ast.BinOp) and isinstance(v.op, (ast.Add, ast.Mult, ast.Sub, ast.BitOr)):
+        return _hoistable(v.left) and _hoistable(v.right)
+    if isinstance(v, ast.Attribute) and isinstance(v.value, ast.Name) and v.value.id == 're' and v.attr.isupper():
+        return True
+    if isinstance(v, ast.Call) and isinstance(v.func, ast.Attribute) and isinstance(v.func.value, ast.Name) and v.func.value.id == 're' and v.func.attr == 'compile':
+        return all(_hoistable(a) for a in v.args) and all(_hoistable(k.value) for k in v.keywords)
+    if isinstance(v, ast.Call) and isinstance(v.func, ast.Name) and v.func.id == 'frozenset' and len(v.args) <= 1 and not v.keywords:
+        return all(isinstance(a, (ast.Tuple, ast.List, ast.Set)) and all(_hoistable(x) for x in a.elts) for a in v.args)
+    return False
+
+
+def _bound_in(fn):
+    """names bound in the scope of fn itself (parameters, assignments, loop/with/except targets, imports, nested defs)"""
+    out = {a.arg for a in fn.args.posonlyargs + fn.args.args + fn.args.kwonlyargs}
+    if fn.args.vararg:
+        out.add(fn.args.vararg.arg)
+    if fn.args.kwarg:
+        out.add(fn.args.kwarg.arg)
+    for n in _shallow(fn):
+        if isinstance(n, ast.Name) and isinstance(n.ctx, (ast.Store, ast.Del)):
+            out.add(n.id)
+        elif isinstance(n, (ast.FunctionDef, ast.AsyncFunctionDef, ast.ClassDef)):
+            out.add(n.name)
+        elif isinstance(n, ast.alias):
+            out.add((n.asname or n.name).split('.')[0])
+        elif isinstance(n, ast.ExceptHandler) and n.name:
+            out.add(n.name)
+    return out
+
+
+class _FoldCompiledRegex(ast.NodeTransformer):
+    """re.compile(P[, F]).search(x) -> re.search(P, x[, flags=F])"""
+    def __init__(self):
+        self.n = 0
+
+    def visit_Call(self, c):
+        self.generic_visit(c)
+        f = c.func
+        if isinstance(f, ast.Attribute) and f.attr in RE_FUNCS and isinstance(f.value, ast.Call) and isinstance(f.value.func, ast.Attribute) \
+                and isinstance(f.value.func.value, ast.Name) and f.value.func.value.id == 're' and f.value.func.attr == 'compile' and f.value.args:
+            comp = f.value
+            kws = list(c.keywords)
+            flags = comp.args[1] if len(comp.args) > 1 else next((k.value for k in comp.keywords if k.arg == 'flags'), None)
+            if flags is not None:
+                kws.append(ast.keyword(arg='flags', value=flags))
+            self.n += 1
+            return ast.copy_location(ast.Call(func=ast.Attribute(value=ast.Name(id='re', ctx=ast.Load()), attr=f.attr, ctx=ast.Load()),
+                                              args=[comp.args[0]] + list(c.args), keywords=kws), c)
+        return c
+
+
+def propagate_fresh_constants(modules, baseline=None):
+    """A name that the pinned tree does not have, bound exactly once (at module or class level) to an immutable literal expression and never stored to again,
+    is a spelling of that literal: its uses are written out.  Names the pinned tree already has (QUEUE_SIZE, the ring sizes, signals ...) are left alone -
+    rules refer to those by name."""
+    import copy
+    baseline = baseline_constants() if baseline is None else baseline
+    notes = []
+    # every name/attribute stored anywhere in the package (to rule out re-binding)
+    stored_attr, global_decl = {}, set()
+    for m in modules.values():
+        for n in ast.walk(m.tree):
+            if isinstance(n, ast.Attribute) and isinstance(n.ctx, (ast.Store, ast.Del)):
+                stored_attr[n.attr] = stored_attr.get(n.attr, 0) + 1
+            elif isinstance(n, ast.Global):
+                global_decl.update(n.names)
+            elif isinstance(n, ast.Call) and isinstance(n.func, ast.Name) and n.func.id == 'setattr' and len(n.args) >= 2:
+                if isinstance(n.args[1], ast.Constant) and isinstance(n.args[1].value, str):
+                    stored_attr[n.args[1].value] = stored_attr.get(n.args[1].value, 0) + 1
+    # class-level candidates: the attribute name must be unique in the package (one class-level binding, no instance/class store anywhere)
+    class_bind = {}
+    for m in modules.values():
+        for c in ast.walk(m.tree):
+            if isinstance(c, ast.ClassDef):
+                for st in c.body:
+                    if isinstance(st, ast.Assign):
+                        for t in st.targets:
+                            if isinstance(t, ast.Name):
+                                class_bind.setdefault(t.id, []).append((m, c, st))
+    for m in modules.values():
+        # ---- module level
+        binds = {}
+        for st in ast.walk(m.tree):
+            if isinstance(st, (ast.Assign, ast.AugAssign, ast.AnnAssign)):
+                pass
+        top_stores = {}
+        for st in m.tree.body:
+            for n in ([st] if not isinstance(st, (ast.FunctionDef, ast.AsyncFunctionDef, ast.ClassDef)) else []):
+                for x in ast.walk(n):
+                    if isinstance(x, ast.Name) and isinstance(x.ctx, (ast.Store, ast.Del)):
+                        top_stores[x.id] = top_stores.get(x.id, 0) + 1
+        for st in m.tree.body:
+            if isinstance(st, ast.Assign) and len(st.targets) == 1 and isinstance(st.targets[0], ast.Name) and _hoistable(st.value):
+                nm = st.targets[0].id
+                if '%s.%s' % (m.name, nm) in baseline or nm in global_decl or top_stores.get(nm, 0) != 1 or stored_attr.get(nm):
+                    continue
+                if nm.startswith('__') and nm.endswith('__'):
+                    continue
+                binds[nm] = st.value
+        # a candidate may be defined in terms of an earlier one
+        for _ in range(3):
+            for nm, v in list(binds.items()):
+                class S(ast.NodeTransformer):
+                    def visit_Name(self, x):
+                        if isinstance(x.ctx, ast.Load) and x.id in binds and x.id != nm:
+                            return copy.deepcopy(binds[x.id])
+                        return x
+                binds[nm] = S().visit(copy.deepcopy(v))
+        if binds:
+            count = {'n': 0}
+
+            # a new module-level boolean that is *tested* is a switch the user may flip at run time (DEBUG = False): it stays a name where its truth is
+            # asked for; everywhere else (default values, arguments, comparisons) the literal is written out
+            def rewrite(node, shadow, truth=False):
+                for fld, val in ast.iter_fields(node):
+                    tr = (fld == 'test' and isinstance(node, (ast.If, ast.While, ast.IfExp, ast.Assert))) or \
+                        (truth and ((isinstance(node, ast.BoolOp) and fld == 'values') or (isinstance(node, ast.UnaryOp) and isinstance(node.op, ast.Not) and fld == 'operand')))
+                    if isinstance(val, list):
+                        for i, ch in enumerate(val):
+                            if isinstance(ch, ast.AST):
+                                val[i] = rewrite_node(ch, shadow, tr)
+                    elif isinstance(val, ast.AST):
+                        setattr(node, fld, rewrite_node(val, shadow, tr))
+                return node
+
+            def rewrite_node(ch, shadow, truth=False):
+                if isinstance(ch, (ast.FunctionDef, ast.AsyncFunctionDef, ast.Lambda)):
+                    sh = shadow | (_bound_in(ch) if not isinstance(ch, ast.Lambda) else {a.arg for a in ch.args.args})
+                    return rewrite(ch, sh)
+                if isinstance(ch, ast.ClassDef):
+                    sh = shadow | {t.id for st in ch.body if isinstance(st, ast.Assign) for t in st.targets if isinstance(t, ast.Name)}
+                    return rewrite(ch, sh)
+                if isinstance(ch, ast.Name) and isinstance(ch.ctx, ast.Load) and ch.id in binds and ch.id not in shadow:
+                    if truth and isinstance(binds[ch.id], ast.Constant) and (isinstance(binds[ch.id].value, bool) or binds[ch.id].value is None):
+                        return ch
+                    count['n'] += 1
+                    return ast.copy_location(copy.deepcopy(binds[ch.id]), ch)
+                return rewrite(ch, shadow, truth)
+            rewrite(m.tree, set())
+            if count['n']:
+                notes.append((m.name, [], 'fresh module constants written out at %d uses: %s' % (count['n'], ', '.join(sorted(binds)))))
+    # ---- class level
+    cbinds = {}
+    for nm, lst in class_bind.items():
+        if len(lst) != 1:
+            continue
+        m, c, st = lst[0]
+        if '%s.%s.%s' % (m.name, c.name, nm) in baseline or stored_attr.get(nm) or not _hoistable(st.value) or len(st.targets) != 1:
+            continue
+        if nm.startswith('__') and nm.endswith('__'):
+            continue
+        # no module-level or local name of the same spelling is an attribute, so `<anything>.NAME` can only be this binding ... unless another object carries
+        # an attribute of that name through a constructor keyword / namedtuple field: require the name to be upper-case (the constant convention)
+        if not nm.isupper() and not (nm.startswith('_') and nm[1:].isupper()):
+            continue
+        cbinds[nm] = st.value
+    if cbinds:
+        cnt = {'n': 0}
+
+        class A(ast.NodeTransformer):
+            def visit_Attribute(self, x):
+                self.generic_visit(x)
+                if isinstance(x.ctx, ast.Load) and x.attr in cbinds:
+                    cnt['n'] += 1
+                    return ast.copy_location(copy.deepcopy(cbinds[x.attr]), x)
+                return x
+
+            def visit_ClassDef(self, c):
+                # inside the defining class body the bare name is in scope too
+                self.generic_visit(c)
+                return c
+        for m in modules.values():
+            m.tree = A().visit(m.tree)
+        # bare uses inside the class body itself (other class-level statements)
+        if cnt['n']:
+            notes.append(('<package>', [], 'fresh class constants written out at %d uses: %s' % (cnt['n'], ', '.join(sorted(cbinds)))))
+    nre = 0
+    for m in modules.values():
+        t = _FoldCompiledRegex()
+        m.tree = ast.fix_missing_locations(t.visit(m.tree))
+        nre += t.n
+    if nre:
+        notes.append(('<package>', [], '%d calls on a compiled regular expression written as re.<function>(pattern, ..)' % nre))
+    return notes
+
+
+# ----------------------------------------------------------------------------------------------- fresh state nothing reads (statistics)
+
+def baseline_attributes():
+    p = os.path.join(HERE, 'baseline_names.json')
+    with open(p) as fh:
+        return set(json.load(fh).get('attributes', []))
+
+
+def strip_fresh_write_only_state(modules, baseline_attrs=None, baseline_funcs=None):
+    """An attribute the pinned tree does not have, which is only ever read (a) by the statements that maintain it (`x.n += 1`, `if v > x.hw: x.hw = v`) or
+    (b) by new functions that nothing in the package calls (observers: statistics(), describe(), __repr__), cannot influence any behaviour of the
+    package.  The statements that maintain it are dropped before analysis; the observers stay (they are analysed like any function)."""
+    battrs = baseline_attributes() if baseline_attrs is None else baseline_attrs
+    bfuncs = baseline_names() if baseline_funcs is None else baseline_funcs
+    # ---- functions, qualified
+    funcs = []          # (qual, node)
+    for m in modules.values():
+        def rec(stmts, q):
+            for st in stmts:
+                if isinstance(st, (ast.FunctionDef, ast.AsyncFunctionDef)):
+                    funcs.append((q + '.' + st.name, st))
+                    rec(st.body, q + '.' + st.name)
+                elif isinstance(st, ast.ClassDef):
+                    rec(st.body, q + '.' + st.name)
+                else:
+                    for f in ('body', 'orelse', 'finalbody'):
+                        if isinstance(getattr(st, f, None), list):
+                            rec(getattr(st, f), q)
+                    for h in getattr(st, 'handlers', []) or []:
+                        rec(h.body, q)
+        rec(m.tree.body, m.name)
+    refs = {}
+    for m in modules.values():
+        for n in ast.walk(m.tree):
+            if isinstance(n, ast.Name) and isinstance(n.ctx, ast.Load):
+                refs[n.id] = refs.get(n.id, 0) + 1
+            elif isinstance(n, ast.Attribute) and isinstance(n.ctx, ast.Load):
+                refs[n.attr] = refs.get(n.attr, 0) + 1
+            elif isinstance(n, ast.Constant) and isinstance(n.value, str) and n.value.isidentifier():
+                refs[n.value] = refs.get(n.value, 0) + 1
+    IMPLICIT = {'__repr__', '__str__'}
+    observers = [node for q, node in funcs if q not in bfuncs and not node.decorator_list and
+                 ((node.name in IMPLICIT) or (not refs.get(node.name) and not (node.name.startswith('__') and node.name.endswith('__'))))]
+    # property-decorated fresh observers
+    observers += [node for q, node in funcs if q not in bfuncs and len(node.decorator_list) == 1 and isinstance(node.decorator_list[0], ast.Name)
+                  and node.decorator_list[0].id == 'property' and node.name not in battrs]
+    obs_nodes = set()
+    for o in observers:
+        obs_nodes.update(id(x) for x in ast.walk(o))
+
+    def target_attr(t):
+        """the attribute a store target writes (X.A, X.A[k], X.A[k][j]) or None"""
+        while isinstance(t, ast.Subscript):
+            t = t.value
+            if isinstance(t, ast.Attribute):
+                return t.attr
+        return t.attr if isinstance(t, ast.Attribute) else None
+    MUT = {'append', 'extend', 'insert', 'update', 'setdefault', 'add', 'appendleft'}
+    cand = set()
+    for m in modules.values():
+        for n in ast.walk(m.tree):
+            if isinstance(n, (ast.Assign, ast.AugAssign)):
+                for t in (n.targets if isinstance(n, ast.Assign) else [n.target]):
+                    a = target_attr(t)
+                    if a and a not in battrs:
+                        cand.add(a)
+    if not cand:
+        return []
+
+    def is_stat(st, dead):
+        if isinstance(st, ast.Pass):
+            return True
+        if isinstance(st, (ast.Assign, ast.AugAssign)):
+            tg = st.targets if isinstance(st, ast.Assign) else [st.target]
+            return all(target_attr(t) in dead for t in tg) and _pure_expr(st.value) and all(_pure_expr(t) for t in tg)
+        if isinstance(st, ast.Expr) and isinstance(st.value, ast.Call) and isinstance(st.value.func, ast.Attribute) and st.value.func.attr in MUT:
+            base = st.value.func.value
+            a = target_attr(base) if isinstance(base, ast.Subscript) else (base.attr if isinstance(base, ast.Attribute) else None)
+            return a in dead and all(_pure_expr(x) for x in st.value.args) and all(_pure_expr(k.value) for k in st.value.keywords)
+        if isinstance(st, ast.If) and _pure_expr(st.test):
+            return all(is_stat(x, dead) for x in st.body) and all(is_stat(x, dead) for x in st.orelse) and not all(isinstance(x, ast.Pass) for x in st.body + st.orelse)
+        return False
+
+    def stat_statement_nodes(dead):
+        ids = set()
+        for m in modules.values():
+            for st in ast.walk(m.tree):
+                if isinstance(st, ast.stmt) and not isinstance(st, ast.Pass) and is_stat(st, dead):
+                    ids.update(id(x) for x in ast.walk(st))
+        return ids
+    dead = set(cand)
+    for _ in range(10):
+        harmless = stat_statement_nodes(dead) | obs_nodes
+        bad = set()
+        for m in modules.values():
+            for n in ast.walk(m.tree):
+                if isinstance(n, ast.Attribute) and n.attr in dead and isinstance(n.ctx, ast.Load) and id(n) not in harmless:
+                    bad.add(n.attr)
+                elif isinstance(n, ast.Call) and isinstance(n.func, ast.Name) and n.func.id in ('getattr', 'hasattr', 'vars') and id(n) not in harmless:
+                    if len(n.args) >= 2 and isinstance(n.args[1], ast.Constant) and n.args[1].value in dead:
+                        bad.add(n.args[1].value)
+        if not bad:
+            break
+        dead -= bad
+    if not dead:
+        return []
+    count = {'n': 0}
+
+    class S(ast.NodeTransformer):
+        def generic_visit(self, node):
+            if id(node) in obs_nodes:
+                return node
+            super().generic_visit(node)
+            for f in ('body', 'orelse', 'finalbody'):
+                v = getattr(node, f, None)
+                if isinstance(v, list) and v and isinstance(v[0], ast.stmt):
+                    new = []
+                    for st in v:
+                        if not isinstance(st, ast.Pass) and is_stat(st, dead):
+                            count['n'] += 1
+                            continue
+                        new.append(st)
+                    if not new and f == 'body':
+                        new = [ast.copy_location(ast.Pass(), v[0])]
+                    setattr(node, f, new)
+            return node
+    for m in modules.values():
+        m.tree = ast.fix_missing_locations(S().visit(m.tree))
+    if not count['n']:
+        return []
+    return [('<package>', [], '%d statements dropped that only maintain new state nothing but new, uncalled observers read: %s' % (count['n'], ', '.join(sorted(dead))))]
+
+
+# ----------------------------------------------------------------------------------------------- new optional parameters nobody in the package supplies
+
+def baseline_params():
+    p = os.path.join(HERE, 'baseline_names.json')
+    with open(p) as fh:
+        return json.load(fh).get('params', {})
+
+
+def _const_value(e):
+    """value of an expression made of constants only, or raise ValueError"""
+    for n in ast.walk(e):
+        if not isinstance(n, (ast.Expression, ast.Constant, ast.Compare, ast.BoolOp, ast.UnaryOp, ast.And, ast.Or, ast.Not, ast.Is, ast.IsNot, ast.Eq, ast.NotEq,
+                              ast.In, ast.NotIn, ast.Tuple, ast.Load, ast.USub)):
+            raise ValueError
+    return eval(compile(ast.fix_missing_locations(ast.Expression(body=copy.deepcopy(e))), '<const>', 'eval'), {'__builtins__': {}})
+
+
+def specialise_fresh_optional_params(modules, bparams=None):
+    """A parameter the pinned signature does not have, with a constant default, that no call in the package supplies: on every path the properties talk about
+    (the pinned API and the package's own calls) it has its default.  The function is analysed with the default written in - `if p is None: p = X` style
+    prologues fold away - and the parameter dropped.  A call that does supply it keeps the parameter."""
+    bparams = baseline_params() if bparams is None else bparams
+    notes = []
+    # every call in the package, by callee name
+    calls = {}
+    for m in modules.values():
+        for n in ast.walk(m.tree):
+            if isinstance(n, ast.Call):
+                nm = n.func.id if isinstance(n.func, ast.Name) else (n.func.attr if isinstance(n.func, ast.Attribute) else None)
+                if nm:
+                    calls.setdefault(nm, []).append(n)
+    refs_by_name = {}
+    for m in modules.values():
+        for n in ast.walk(m.tree):
+            if isinstance(n, ast.keyword) and n.arg:
+                refs_by_name.setdefault(n.arg, 0)
+                refs_by_name[n.arg] += 1
+
+    def subst(node, pname, value):
+        class S(ast.NodeTransformer):
+            def visit_Name(self, x):
+                if x.id == pname and isinstance(x.ctx, ast.Load):
+                    return ast.copy_location(copy.deepcopy(value), x)
+                return x
+        return S().visit(node)
+
+    def stores(node, pname):
+        return any(isinstance(x, ast.Name) and x.id == pname and isinstance(x.ctx, (ast.Store, ast.Del)) for x in ast.walk(node)) or \
+            any(isinstance(x, (ast.Global, ast.Nonlocal)) and pname in x.names for x in ast.walk(node))
+
+    def specialise(fn, pname, default):
+        val = default
+        out = []
+        todo = list(fn.body)
+        while todo:
+            st = todo.pop(0)
+            if isinstance(st, ast.If):
+                try:
+                    v = _const_value(subst(copy.deepcopy(st.test), pname, val))
+                    todo = list(st.body if v else st.orelse) + todo
+                    continue
+                except (ValueError, Exception):
+                    pass
+            if isinstance(st, ast.Assign) and len(st.targets) == 1 and isinstance(st.targets[0], ast.Name) and st.targets[0].id == pname:
+                v2 = subst(copy.deepcopy(st.value), pname, val)
+                if _hoistable(v2):
+                    val = v2
+                    continue
+                return None
+            if stores(st, pname):
+                return None
+            out.append(subst(st, pname, val))
+        return out or [ast.Pass()]
+    for m in modules.values():
+        fns = []
+        for st in m.tree.body:
+            if isinstance(st, ast.FunctionDef):
+                fns.append(('%s.%s' % (m.name, st.name), st, False))
+            elif isinstance(st, ast.ClassDef):
+                for s2 in st.body:
+                    if isinstance(s2, ast.FunctionDef):
+                        fns.append(('%s.%s.%s' % (m.name, st.name, s2.name), s2, True))
+        for q, fn, is_method in fns:
+            if q not in bparams:
+                continue
+            old = set(bparams[q])
+            a = fn.args
+            pos = a.posonlyargs + a.args
+            ndef = len(a.defaults)
+            cands = []
+            for i, arg in enumerate(pos):
+                di = i - (len(pos) - ndef)
+                if arg.arg not in old and di >= 0 and isinstance(a.defaults[di], ast.Constant):
+                    cands.append(('pos', i, arg.arg, a.defaults[di]))
+            for i, arg in enumerate(a.kwonlyargs):
+                if arg.arg not in old and a.kw_defaults[i] is not None and isinstance(a.kw_defaults[i], ast.Constant):
+                    cands.append(('kw', i, arg.arg, a.kw_defaults[i]))
+            # only trailing positional parameters can be dropped without shifting the others
+            for kind, i, pname, default in reversed(cands):
+                pos = a.posonlyargs + a.args
+                if kind == 'pos' and i != len(pos) - 1:
+                    continue
+                supplied = False
+                for c in calls.get(fn.name, []):
+                    if any(k.arg == pname or k.arg is None for k in c.keywords) or any(isinstance(x, ast.Starred) for x in c.args):
+                        supplied = True
+                    elif kind == 'pos' and len(c.args) >= (i if is_method and isinstance(c.func, ast.Attribute) else i + 1):
+                        supplied = True         # a positional call long enough to reach the parameter
+                if supplied:
+                    continue
+                backup = copy.deepcopy(fn.body)
+                new = specialise(fn, pname, default)
+                if new is None:
+                    fn.body = backup
+                    continue
+                fn.body = new
+                if kind == 'pos':
+                    (a.args if a.args else a.posonlyargs).pop()
+                    a.defaults.pop()
+                else:
+                    a.kwonlyargs.pop(i)
+                    a.kw_defaults.pop(i)
+                notes.append((q, [], 'new optional parameter %s (no call in the package supplies it) analysed at its default %s' % (pname, ast.unparse(default))))
+        ast.fix_missing_locations(m.tree)
+    return notes
 
 
 # ----------------------------------------------------------------------------------------------- local aliases of attribute chains
